@@ -8,7 +8,11 @@ find_global_peaks on generated batches of exactly representable maps; the Coq se
 of F2 is compared with the oracle's selector on every generated map.
 Oracle: the property statement evaluated on the implementation's outputs (value = max,
 cell attains the max, below threshold => NaN/0, channel independence by re-running
-single maps, refinement within half a patch, symmetric patch unmoved).  The Gaussian
+single maps, refinement within half a patch, symmetric patch unmoved).
+Public entry points (harness/c07_layer.py, model C07/Layer.v): FindInstancePeaks.forward,
+SingleInstanceInferenceModel.forward (stub / identity network returning hand-made maps) and
+find_global_peaks with keyword arguments omitted, over the option grid; the same oracle at
+the CONFIGURED options, in map units.  The Gaussian
 "moves toward the true centre" clause is proved for the exact formula over the reals
 (C07/Props.v) and additionally *measured* on float32 Gaussian bumps (a test).
 """
@@ -20,6 +24,7 @@ from fractions import Fraction as F
 
 from .. import core
 from .. import c06_maps as M
+from .. import c07_layer as L
 
 PROP_FILES = [core.THEORIES / "C07" / "Props.v"]
 BOX_FILE = core.THEORIES / "C07" / "PropsBox.v"
@@ -257,10 +262,101 @@ def gaussian_test(run, mods, n):
                      f"largest offset/displacement ratio {worst:.4f}")
 
 
+# ---------------------------------------------------------------- public entry points (layers)
+GRID_MAXIMA = [F(7, 8), F(5, 32), F(1, 16), F(1, 4), F(0), F(-1, 32)]
+
+
+def layer_grid():
+    """A fixed batch (2 samples x 3 channels, maxima 7/8, 5/32, 1/16, 1/4, 0, -1/32 on a weak
+    background) through every entry point x threshold (omitted, 0, equal to a maximum, between,
+    above, negative) x refinement (omitted, None, integral, other) — the same on every seed."""
+    H, W = 5, 6
+    spots = [(1, 2), (4, 5), (0, 0), (2, 3), (3, 1), (4, 0)]
+    maps = []
+    for k, (mx, (y, x)) in enumerate(zip(GRID_MAXIMA, spots)):
+        if mx > 0:       # weak positive background, strictly below every positive maximum
+            m = [[F((i * W + j + k) % 2, 128) for j in range(W)] for i in range(H)]
+        else:            # strictly below a zero / negative maximum
+            m = [[mx - F(1, 32) - F((i * W + j + k) % 3, 64) for j in range(W)] for i in range(H)]
+        m[y][x] = mx
+        maps.append(m)
+    cms = [maps[0:3], maps[3:6]]
+    out = []
+    for entry in ("find_instance_peaks", "single_instance", "function_kw"):
+        for thr in (None, "0", "5/32", "3/16", "1/4", "1", "-1/8"):
+            for ref, p in (("omitted", None), ("none", 3), ("integral", None), ("integral", 4), ("local", 3)):
+                c = {"kind": "layer", "entry": entry, "cms": cms, "family": "option_grid", "dtype": "float32",
+                     "opts": {"thr": thr, "refinement": ref, "p": p}}
+                if entry != "function_kw":
+                    i = len(out)
+                    c["opts"].update({"stride": (1, 2, 4)[i % 3], "scale": (None, "1", "1/2", "2")[i % 4],
+                                      "return_confmaps": i % 5 == 0,
+                                      "max_stride": (1, 2)[i % 2] if entry == "find_instance_peaks" else 1})
+                    c["net"] = "stub" if c["opts"]["max_stride"] != 1 or i % 3 == 0 else "identity"
+                    c["effs"] = [("1", "1/2", "2")[i % 3], ("1", "3/4")[i % 2]]
+                out.append(c)
+    return out
+
+
+def check_layers(run, fixed, thorough):
+    """FindInstancePeaks / SingleInstanceInferenceModel / find_global_peaks(**kwargs): tie to
+    Layer.run and the property's oracle at the configured options."""
+    lmods = L.load_mods()
+    cases = layer_grid()
+    n_grid = len(cases)
+    n = n_grid + (1500 if thorough else 260)
+    while len(cases) < n:
+        cases.append(L.gen_case(run.rng, thorough))
+    cases = [L.finish_case(c, lmods) for c in cases]
+    model = core.coq_eval_sharded(L.PREAMBLE, [L.term(c, fixed, lmods) for c in cases], L.RUN, L.RENDER,
+                                  shard=100, jobs=12)
+    disagree, skipped, dist = 0, 0, {}
+    for c, m in zip(cases, model):
+        e = L.effective(c, lmods)
+        o = c["opts"]
+        for key in ("entry:" + c["entry"], "thr:" + ("omitted" if o["thr"] is None else ("zero" if F(o["thr"]) == 0 else "other")),
+                    "refinement:" + o["refinement"], "p:" + str(o["p"]), "net:" + c.get("net", "-"),
+                    "input_scale:" + str(o.get("scale", "-")), "stride:" + str(o.get("stride", "-"))):
+            dist[key] = dist.get(key, 0) + 1
+        flat = [mm for smp in c["cms"] for mm in smp]
+        nvalid = sum(1 for mm in flat if max(v for row in mm for v in row) >= e["thr"])
+        dist["valid_channels"] = dist.get("valid_channels", 0) + nvalid
+        dist["invalid_channels"] = dist.get("invalid_channels", 0) + len(flat) - nvalid
+        dist["channels_with_max_in_0_to_0.2"] = dist.get("channels_with_max_in_0_to_0.2", 0) + sum(
+            1 for mm in flat if 0 <= max(v for row in mm for v in row) < F(1, 5))
+        run.case(L.case_json(c), nontrivial=(nvalid >= 1 and len(flat[0]) * len(flat[0][0]) >= 2))
+        extra = {}
+        try:
+            out = L.run_impl(c, lmods, extra=extra)
+            bad = L.oracle(c, out, lmods, extra)
+        except Exception as ex:
+            run.violation("failing-input", {"case": L.case_json(c), "impl_error": f"{type(ex).__name__}: {ex}"})
+            continue
+        diff, sk = L.compare(c, m, out, fixed, lmods)
+        skipped += sk
+        for reason, sel in bad:
+            run.violation("failing-input", {"case": L.case_json(c), "oracle": reason, "correspondence": diff,
+                                            "observed": out}, selector=sel)
+        if diff:
+            disagree += 1
+            run.proof_broken.append(f"correspondence C07 layer model vs implementation: {diff}; case "
+                                    f"{json.dumps(L.case_json(c))[:700]}")
+    run.obligation("correspondence: Layer.run (Coq, vm_compute) == FindInstancePeaks.forward / "
+                   "SingleInstanceInferenceModel.forward / find_global_peaks(**kwargs) (/repo) on every case",
+                   disagree == 0, f"{disagree} disagreements")
+    run.coverage["layer_stream"] = {"cases": len(cases), "option_grid_cases": n_grid, "input_distribution": dist,
+                                    "disagreements": disagree, "refined_peaks_skipped_zero_patch_sum": skipped}
+    for c in cases[n_grid:n_grid + 2]:
+        run.sample(L.case_json(c))
+    run.trusted.append("the stub / identity network stands for the trained model: the layers are checked on the maps "
+                       "it returns (hand-made), not on what a trained network would produce")
+
+
 # ---------------------------------------------------------------- check
 def load_corpus():
     d = core.CORPUS / "C07"
-    return [case_from_json(json.load(open(f))) for f in sorted(d.glob("*.json"))] if d.exists() else []
+    js = [json.load(open(f)) for f in sorted(d.glob("*.json"))] if d.exists() else []
+    return [case_from_json(j) for j in js if j.get("kind") != "layer"]
 
 
 def detect_fixed_F2(mods):
@@ -361,6 +457,7 @@ def check(run: core.Run) -> int:
                    "(/repo) on every case", disagree == 0, f"{disagree} disagreements")
     run.obligation("selector_F2 (Coq) == the oracle's selector on every generated map", sel_disagree == 0,
                    f"{sel_disagree} disagreements")
+    check_layers(run, fixed, thorough)
     gaussian_test(run, mods, 1500 if thorough else 150)
     run.coverage.update({
         "input_distribution": dist, "disagreements": disagree, "fixed_F2_detected": fixed,
@@ -398,6 +495,14 @@ def replay(run: core.Run, path: str) -> int:
     if rep["case"].get("kind") == "gaussian":
         print(json.dumps({"oracle": rep.get("oracle"), "note": "re-run ./check C07 with the recorded seed"}))
         return 1
+    if rep["case"].get("kind") == "layer":
+        lmods = L.load_mods()
+        c = L.case_from_json(rep["case"])
+        extra = {}
+        out = L.run_impl(c, lmods, extra=extra)
+        bad = L.oracle(c, out, lmods, extra)
+        print(json.dumps({"oracle": bad, "observed": out}, default=str))
+        return 1 if bad else 0
     c = case_from_json(rep["case"])
     out = run_impl(c, mods)
     bad = oracle(c, out, mods)
